@@ -52,7 +52,7 @@ def run(rep, tier, seed, proof_broken=False):
         layout = rng.choice(s3prop.LAYOUTS[:4])
         d = s3prop.Dual(rng, prefix, rng.choice([2, 1000]), layout, "1.1")
         try:
-            g = s3prop.LineGen(rng, d, layout, big=(h % 5 == 3))
+            g = s3prop.LineGen(rng, d, layout, big=("multipart" if h % 2 == 0 else False))    # every second repository holds a file above the multipart threshold
             g.setup()
             o = g.ids[0]
             plan = []
@@ -86,6 +86,7 @@ def run(rep, tier, seed, proof_broken=False):
                     cls_req, rel = classify(ob["request"], oroot, newv)
                     rep.count("fault:%s:%s:%s:%s" % (kind, cls_req, ob["mode"], ob["cls"] if not ob["fails"] else "FAIL"))
                     rep.classes.add("%s|%s|%s|%s" % (kind, cls_req, ob["mode"], ob["cls"]))
+                    rep.count("failed-request-kind:%s" % ob["request"][0])
                     rep.evaluations += 1
                     for f in ob["fails"]:
                         fails.append(dict(what="%s commit: %s" % (kind, f), inject="request #%d %s (%s)" % (ob["k"], ob["request"], ob["mode"]), commit=s3prop.show(line), prefix=prefix, layout=layout[0]))
